@@ -80,7 +80,7 @@ CHECKS: dict[str, dict[str, str]] = {
     'C17': dict(
         technique='TLA+ reference state machine of indexing (Indexing.tla); the recorded steps of the real operator are replayed by TLC, which '
                   'predicts the handlers that run and the full contents of every index after each step; gate scenarios judged by the same module',
-        text='[+ objects are incarnations (uid): an object re-created under its name while the old one's worker is still busy] [+ Gate.tla: readiness gate x worker limit, handlers only after the initial index, startup terminates; witness of F16] Random histories (adds, edits, label toggles, deletes over 3 objects with colliding keys, 2 indices, results: mapping / scalar / '
+        text='[+ objects are incarnations (uid): an object re-created under its name while the worker of the old one is still busy] [+ Gate.tla: readiness gate x worker limit, handlers only after the initial index, startup terminates; witness of F16] Random histories (adds, edits, label toggles, deletes over 3 objects with colliding keys, 2 indices, results: mapping / scalar / '
              'None / temporary / permanent / arbitrary error) run on the real operator; an on.event handler dumps the indices through the '
              'kwarg views after every event; TLC replays each trace through Indexing.tla and requires equality of the handler sets and of all '
              'index contents. The readiness gate is exercised with delayed listings of two indexed kinds and objects arriving meanwhile.',
@@ -138,7 +138,7 @@ CHECKS: dict[str, dict[str, str]] = {
     'C18': dict(
         technique='TLA+ reference of the admission response (Admission.tla over JV.tla: RFC 7386 merge, RFC 6902 application incl. move/copy); '
                   'the real serve_admission_request run on systematic combinations, records judged by TLC',
-        text='[+ the handlers' filters (labels, field/value, when) in the selection, judged on the reviewed object with a differing other object] allowed iff no selected handler raised; message/code from the most specific error; warnings in order; exactly the selected '
+        text='[+ the filters of the handlers (labels, field/value, when) in the selection, judged on the reviewed object with a differing other object] allowed iff no selected handler raised; message/code from the most specific error; warnings in order; exactly the selected '
              'handlers ran (webhook id, operation, subresource, mutating-on-DELETE opt-in); the returned JSON patch applied to the reviewed '
              'object equals the transformations applied to the RFC 7386 merge of the instructions, up to empty mappings - decided by TLC for '
              'every record of the real code. Families F12, F13, F24 are TLA+ predicates.',
@@ -206,7 +206,7 @@ CHECKS: dict[str, dict[str, str]] = {
     'C11': dict(
         technique='explicit TLA+ model of the closed loop of one object (Handling.tla) checked exhaustively with TLC; traces of the real '
                   'kopf.operator() in the world simulator validated by TLC against the specification (Trace_Handling.tla)',
-        text='[+ Activities.tla: whole activities (the reference of one invocation iterated over the rounds) vs the real run_activity with scripted handlers that end in different rounds: attempt instants, per-handler verdicts, the activity's verdict] [+ re-listings whose snapshot predates the own patch and is delivered after it (patch latency, list answer latency, compaction)] [+ Execution.tla: reference of one invocation - timeout / retries before the attempt, look-ahead for temporary and arbitrary errors, error modes, backoff - laws checked by TLC over 143 360 input combinations; the real execute_handler_once on configurations x states (incl. runtimes beyond 24 h) x behaviours for an activity and a change handler judged by TLC] retry numbering, delays (a handler is never invoked before its recorded delay), permanence, ignored mode and the retries limit for change handlers incl. across kills/restarts (RetriesBounded, InvokeGoverned); records after every PATCH are compared field by field' ' -- checked by TLC on Handling.tla for every interleaving of the bounded configurations, and on every state of '
+        text='[+ Activities.tla: whole activities (the reference of one invocation iterated over the rounds) vs the real run_activity with scripted handlers that end in different rounds: attempt instants, per-handler verdicts, the verdict of the activity] [+ re-listings whose snapshot predates the own patch and is delivered after it (patch latency, list answer latency, compaction)] [+ Execution.tla: reference of one invocation - timeout / retries before the attempt, look-ahead for temporary and arbitrary errors, error modes, backoff - laws checked by TLC over 143 360 input combinations; the real execute_handler_once on configurations x states (incl. runtimes beyond 24 h) x behaviours for an activity and a change handler judged by TLC] retry numbering, delays (a handler is never invoked before its recorded delay), permanence, ignored mode and the retries limit for change handlers incl. across kills/restarts (RetriesBounded, InvokeGoverned); records after every PATCH are compared field by field' ' -- checked by TLC on Handling.tla for every interleaving of the bounded configurations, and on every state of '
              'the behaviour that explains each recorded trace of the real operator (seeded random scenarios of profile errors; every '
              'PATCH is compared with the specification\'s server object field by field, virtual time is bound by urgency). Daemons and timers '
              'hold the finalizer too: the daemon executions of C09 are validated against Spawning.tla (Trace_Spawning: every finalizer write must '
